@@ -51,6 +51,7 @@ func runC30(c *Ctx) {
 	r.Rule("C30.R2", "every explicit panic and single-value type assertion in the parsing layer is justified in the ledger", 1)
 	r.Rule("C30.R3", "every integer division by a non-constant and every make with a computed size in the parsing layer is proved safe or justified in the ledger (narrowing conversions are listed, not judged: they cannot panic, and the bounds proofs treat their result as unknown)", 8)
 	r.Rule("C30.R4", "every goroutine started by a function of the parsing layer runs a function literal of that function (analysed in place) or another function of the scope table", 4)
+	r.Rule("C30.R5", "nil discipline on the remote-input path: a value obtained from RTPTransceiver.Receiver()/Sender() (nil for a transceiver without that half) is used as a method receiver or handed to a callback only where a dominating test established it is not nil", 3)
 	r.NotCovered = append(r.NotCovered,
 		"panics inside pion/sdp, pion/ice, pion/rtp, pion/srtp, pion/interceptor (also when inlined into this package: listed, not judged)",
 		"nil dereferences (nilaway was run once as cross-reference only)",
@@ -155,6 +156,7 @@ func runC30(c *Ctx) {
 		st386 := e4Run(c, p386, sc, "@386")
 		e4Extra(r, "_386", st386)
 	}
+	c30R5(c, "C30.R5")
 }
 
 // c30Ledger: residual obligations accepted after reading the code (function | operand | kind:goal).
